@@ -284,7 +284,7 @@ def free_run(rng: random.Random, idx: int, n_threads: int, extra: bool = False):
             time.sleep(0.0005)
             return _settings.serialization.default_conversion(tp)
 
-        a = lambda: json.dumps(serialization_schema(_List[AM], default_conversion=slow_default), sort_keys=True)  # noqa: E731
+        a = lambda: json.dumps(serialization_schema(_List[AM], all_refs=True, default_conversion=slow_default), sort_keys=True)  # noqa: E731
         b = lambda: repr(serialize(_List[AM], [AM(1), AM(2)]))  # noqa: E731
         c = lambda: json.dumps(serialization_schema(OS, conversion=os_conv), sort_keys=True)  # noqa: E731
         d = lambda: repr(serialize(OS, OS(1, "abc"), conversion=os_conv))  # noqa: E731
